@@ -794,7 +794,7 @@ func c15Run(t *testing.T) func(c c15Case, v *vlib.Verdict) {
 				v.Discard = true
 				return
 			}
-			if st.Kind < 0 || st.Kind > c15Trunc || st.Len < 0 || st.Len > 4096 || ((st.Kind != c15Forged && st.Kind != c15Move) && st.Len < 1) {
+			if st.Kind < 0 || st.Kind > c15Trunc || st.Len < 0 || st.Len > 4096 || ((st.Kind != c15Forged && st.Kind != c15Move && st.Kind != c15Genuine && st.Kind != c15Roam) && st.Len < 1) {
 				v.Discard = true
 				return
 			}
@@ -890,6 +890,10 @@ func c15GenStep(t *rapid.T) c15Step {
 	}
 	if kind != c15Move {
 		st.Len = rapid.IntRange(1, 120).Draw(t, "len")
+		// a message may be empty: its datagram is header, counter and tag only, and is as genuine and fresh as any
+		if (kind == c15Genuine || kind == c15Roam) && rapid.IntRange(0, 5).Draw(t, "empty") == 0 {
+			st.Len = 0
+		}
 	}
 	// the endpoint's application: mostly no change; stops are drawn more often than resumptions so that stretches
 	// without a reader are long enough to fill a short queue
